@@ -74,6 +74,32 @@ func (e *Exec) canInline(fn *ssa.Function, depth int) bool {
 }
 
 func (fr *Frame) doCall(in ssa.Instruction, cc *ssa.CallCommon, fv Val, args []Val, callInstr *ssa.Call) Val {
+	res := fr.doCall0(in, cc, fv, args, callInstr)
+	e := fr.e
+	if fr.depth == 0 && e.spec != nil && len(e.spec.CallCount) > 0 {
+		name, short := "", ""
+		if callee := cc.StaticCallee(); callee != nil {
+			name, short = callee.Name(), e.L.shortName(callee)
+		} else if cc.IsInvoke() {
+			short = e.L.ifaceKey(cc)
+		}
+		for k, g := range e.spec.CallCount {
+			if k == name || k == short || (cc.IsInvoke() && strings.HasSuffix(short, "."+k)) {
+				env := e.baseEnv(fr, fr.st)
+				if _, err := env.evalIdent(g); err != nil { // registers the ghost variable's sort
+					e.errs = append(e.errs, fmt.Sprintf("callcount %s: %v", k, err))
+					continue
+				}
+				srt := e.keySort["X:"+g]
+				cur := e.heapGet(fr.st, "X:"+g, srt)
+				e.heapSet(fr.st, "X:"+g, srt, mkIte(fr.pc, bvAdd(cur, bvLitI(64, 1)), cur))
+			}
+		}
+	}
+	return res
+}
+
+func (fr *Frame) doCall0(in ssa.Instruction, cc *ssa.CallCommon, fv Val, args []Val, callInstr *ssa.Call) Val {
 	e := fr.e
 	var resT types.Type = cc.Signature().Results()
 	if cc.Signature().Results().Len() == 1 {
@@ -260,7 +286,25 @@ func (fr *Frame) applyContract(in ssa.Instruction, callee *ssa.Function, sp *Fun
 	fr.checkCallPre(in, callee, sp, args, binds, key)
 	old := fr.st.clone()
 	if sp.ModAll {
+		kept := map[string]string{}
+		for _, g := range sp.Preserves {
+			k := "X:" + g
+			if strings.HasPrefix(g, "key(") && strings.HasSuffix(g, ")") {
+				k = g[4 : len(g)-1] // a raw heap key, e.g. key(E:uint8#0): the contents of all byte arrays
+			}
+			if v, ok := fr.st.heap[k]; ok {
+				kept[k] = v
+			} else if srt, known := e.keySort[k]; known {
+				kept[k] = e.heapGet(fr.st, k, srt)
+			} else {
+				// never read or written so far: keep "its value in the current generation" until the sort is known
+				kept[k] = fmt.Sprintf("\x00gen:%d", fr.st.gen)
+			}
+		}
 		e.havocAll(fr.st)
+		for k, v := range kept {
+			fr.st.heap[k] = v
+		}
 	} else {
 		// the locations of a modifies clause denote pre-state locations: evaluate every
 		// clause in the pre-call state, so that an earlier clause's havoc does not redirect a later one
